@@ -101,7 +101,7 @@ def rows(prop, engines=('map', 'set')):
 
 HIST_RULE = ('Iterators are consumed by plain next() loops and, in dedicated adaptor steps, through nth / skip / step_by / last / fold / count / for_each / take / by_ref. Cases are monitored steps of random operation histories (8..96 steps, workload profiles uniform / fill / '
              'churn-at-full / drain-down / revisit) started from an empty container, for capacities N in {0,1,2,3,4,8} and, for the Copy family, 40 and 70 (beyond the 32- and 64-slot marks) '
-             '(thorough adds 5,16,32; one Copy history in 1200 runs at N = 300, slot numbers beyond one byte) and the element families named in each job (track = ledger-tracked, tiny = one-byte key with its own ==, word = four-byte key with its own == and a niche value, align = 64-/32-byte aligned pairs); after every step a full observation sweep '
+             '(thorough adds 5,16,32; one Copy history in 1200 runs at N = 300, slot numbers beyond one byte) and the element families named in each job (track = ledger-tracked, tiny = one-byte key with its own ==, word = four-byte key with its own == and a niche value, align = 64-/32-byte aligned pairs, odd = 3-byte key and 6-byte value of alignment 1, k12 = 12-byte key with its tag in the trailing bytes, large = 128-/512-byte tracked pairs); after every step a full observation sweep '
              'compares the real container with the reference model. A case is non-trivial when the pre-state is non-empty or '
              'the operation mutates.')
 
@@ -109,14 +109,14 @@ ALLCAPS = '0,1,2,3,4,5,8,16,32,40,70'
 
 
 def _c01(tier):
-    a = '--fam track,track,copy,raw,zst,nodrop,tiny,word,align' + (' --caps ' + ALLCAPS if tier == 'thorough' else '')
+    a = '--fam track,track,copy,raw,zst,nodrop,tiny,word,align,odd,k12,large' + (' --caps ' + ALLCAPS if tier == 'thorough' else '')
     m = '--fam track,track,raw,align,tiny --caps 0,1,2,3,4 --max-steps 48'
     raw = '--fam raw --caps 0,1,2,3,4,8 --no-forget'
     return hist_jobs('C01', tier, a, a, engines=('map',), std=True, miri=(16, 150, 1500, {'map': m}), asan=(8, 2_000_000, {'map': raw}))
 
 
 def _c07(tier):
-    a = '--fam track,track,copy,raw,zst,nodrop,tiny,word,align' + (' --caps ' + ALLCAPS if tier == 'thorough' else '')
+    a = '--fam track,track,copy,raw,zst,nodrop,tiny,word,align,odd,k12,large' + (' --caps ' + ALLCAPS if tier == 'thorough' else '')
     m = '--fam track,track,raw,align,tiny --caps 0,1,2,3,4 --max-steps 48'
     raw = '--fam raw --caps 0,1,2,3,4,8 --no-forget'
     return hist_jobs('C07', tier, a, a, engines=('set',), std=True, miri=(16, 150, 1500, {'set': m}), asan=(8, 2_000_000, {'set': raw}))
@@ -197,7 +197,7 @@ plan('C02', jobs=_c02, rule=HIST_RULE + ' Consuming iterators and drains are aba
      design_ref='DESIGN.md section 3, C02')
 
 def _c05(tier):
-    jobs = _simple_hist('C05', tier, fam='track,track,copy,zst,tiny,word,align', miri=(150, 1500, True))
+    jobs = _simple_hist('C05', tier, fam='track,track,copy,zst,tiny,word,align,odd,k12,large', miri=(150, 1500, True))
     # deserialisation is an operation too (feature serde): payloads that micromap did not write - sequences of
     # pairs / elements with repeats, with and without an announced length - must leave a well-formed container
     jobs.append(J('C05', 'dbg/serde-foreign', 'dbg-serde', 'eng_serde', '', 4, q(tier, 12_000, 600_000), covp='sd/'))
@@ -213,7 +213,7 @@ plan('C05', jobs=_c05, rule=HIST_RULE + ' The well-formedness oracle uses no mod
      level_note='Uniqueness is judged with the lawful == of the instrumented keys. Finite sample of histories.',
      design_ref='DESIGN.md section 3, C05')
 
-plan('C09', jobs=lambda t: _simple_hist('C09', t, fam='track,track,copy,zst,tiny,align', miri=(150, 1500, True)), rule=HIST_RULE + ' An iterator probe walks one borrowing iterator kind completely, checking len/size_hint/count before every step, a clone at a random step, fusedness, a second traversal and write visibility.',
+plan('C09', jobs=lambda t: _simple_hist('C09', t, fam='track,track,copy,zst,tiny,align,odd,large', miri=(150, 1500, True)), rule=HIST_RULE + ' An iterator probe walks one borrowing iterator kind completely, checking len/size_hint/count before every step, a clone at a random step, fusedness, a second traversal and write visibility.',
      required=rows('C09'),
      title='borrowing iterators',
      technique='runtime monitoring: per-step exactness monitor on iter/iter_mut/keys/values/values_mut/Set::iter over states reached by random histories (identity-level comparison through ledger ids)',
@@ -221,7 +221,7 @@ plan('C09', jobs=lambda t: _simple_hist('C09', t, fam='track,track,copy,zst,tiny
      level_note='Finite sample of states; iterator kinds enumerated completely.',
      design_ref='DESIGN.md section 3, C09')
 
-plan('C10', jobs=lambda t: _mem_hist('C10', t, fam='track,track,copy,zst,tiny,align', miri_steps=(200, 2000), asan=True, vg=True), rule=HIST_RULE + ' Every drain / consuming iterator is cut at a random j in 0..=len+1 and then dropped or forgotten.',
+plan('C10', jobs=lambda t: _mem_hist('C10', t, fam='track,track,copy,zst,tiny,align,odd,large', miri_steps=(200, 2000), asan=True, vg=True), rule=HIST_RULE + ' Every drain / consuming iterator is cut at a random j in 0..=len+1 and then dropped or forgotten.',
      required=rows('C10'), assumptions=NATIVE_ASSUME + SAN_ASSUME,
      title='consuming iterators and drain',
      technique='runtime monitoring: identity-level permutation monitor + exact-length monitor on into_iter/into_keys/into_values/drain (Map and Set) cut at every point, ledger for the non-yielded remainder, Miri on the same workload',
@@ -229,7 +229,7 @@ plan('C10', jobs=lambda t: _mem_hist('C10', t, fam='track,track,copy,zst,tiny,al
      level_note='For a forgotten drain only safety and well-formedness are demanded (the property promises nothing more).',
      design_ref='DESIGN.md section 3, C10')
 
-plan('C12', jobs=lambda t: _simple_hist('C12', t, fam='track,track,large,nodrop,tiny,word,align', miri=(150, 1500, True)), rule=HIST_RULE + ' Keys of one class carry distinct tags, so the stored key object is identifiable; half of the inserting operations reuse a present class with a fresh tag.',
+plan('C12', jobs=lambda t: _simple_hist('C12', t, fam='track,track,large,nodrop,tiny,word,align,odd,k12', miri=(150, 1500, True)), rule=HIST_RULE + ' Keys of one class carry distinct tags, so the stored key object is identifiable; half of the inserting operations reuse a present class with a fresh tag.',
      required=rows('C12'),
      title='stored-key identity',
      technique='runtime monitoring: identity (tag + ledger id) sweep of the stored key object after every step, against a model that tracks which key object must be stored',
@@ -237,7 +237,7 @@ plan('C12', jobs=lambda t: _simple_hist('C12', t, fam='track,track,large,nodrop,
      level_note='Finite sample of histories; identity observable only for the tracked families.',
      design_ref='DESIGN.md section 3, C12')
 
-plan('C15', jobs=lambda t: _simple_hist('C15', t, fam='track,track,large,nodrop,copy,zst,word,align', miri=(150, 1500, True)), rule=HIST_RULE + ' A fork step clones the container inside a ledger event window; both copies then continue with independent random suffixes and are swept after every step.',
+plan('C15', jobs=lambda t: _simple_hist('C15', t, fam='track,track,large,nodrop,copy,zst,word,align,odd', miri=(150, 1500, True)), rule=HIST_RULE + ' A fork step clones the container inside a ledger event window; both copies then continue with independent random suffixes and are swept after every step.',
      required=rows('C15'),
      title='clone',
      technique='runtime monitoring: ledger event window around clone() (exactly one Clone event per stored key and value, nothing else), then twin histories with cross-talk sweeps of both copies after every step',
@@ -246,7 +246,7 @@ plan('C15', jobs=lambda t: _simple_hist('C15', t, fam='track,track,large,nodrop,
      design_ref='DESIGN.md section 3, C15')
 
 def _c19(tier):
-    jobs = _simple_hist('C19', tier, fam='track,track,copy,raw,zst,tiny,align', miri=(150, 1500, True))
+    jobs = _simple_hist('C19', tier, fam='track,track,copy,raw,zst,tiny,align,odd', miri=(150, 1500, True))
     jobs += [
         J('C19', 'dbg/algebra', 'dbg', 'eng_algebra', '--universe 4', 4, 1, covp='alg/'),
         J('C19', 'rel/algebra', 'rel', 'eng_algebra', '--universe 4', 4, 1, covp='alg/'),
